@@ -127,6 +127,7 @@ static Plan c07_gen(uint64_t seed, int tier, uint64_t index) {
         }
     }
     if (r.chance(1, 6)) { p.cfg["resdis"] = 1; if (r.chance(1, 2)) { p.cfg["tickets"] = 1; } }
+    else if (r.chance(1, 8)) { p.cfg["reoffer"] = 1; if (r.chance(1, 2)) { p.cfg["tickets"] = 1; } }
     if (r.chance(1, 5)) { p.cfg["ems_c"] = -1; }
     if (r.chance(1, 6)) { p.cfg["ems_s"] = 1; }
     if (r.chance(1, 4)) { p.cfg["fallback"] = 1; }
@@ -158,6 +159,14 @@ static std::vector<Plan> c07_fixed(int tier) {
         p.cfg["dtls"] = 0; p.cfg["vers_c"] = fam == 2 ? 4 : (fam ? 2 : 1); p.cfg["vers_s"] = p.cfg["vers_c"]; p.cfg["sid_kind"] = KK_RSA2048; p.cfg["resdis"] = 1; p.cfg["tickets"] = tk;
         p.cfg["suite"] = fam == 2 ? TLS_AES_128_GCM_SHA256 : TLS_RSA_WITH_AES_128_CBC_SHA;
         if (two) { p.cfg["suite2"] = fam == 2 ? TLS_AES_256_GCM_SHA384 : TLS_RSA_WITH_AES_256_CBC_SHA; }
+        p.ops.push_back(Op("send", 0, 50)); p.ops.push_back(Op("send", 1, 50));
+        v.push_back(p);
+    } } }
+    // resumption offered together with a DIFFERENT suite list than the original connection used: session id, ticket, TLS 1.3 PSK
+    for (int fam = 0; fam < 3; fam++) { for (int tk = 0; tk < 2; tk++) { for (int su = 0; su < 2; su++) {
+        Plan p; p.seed = 78500 + (uint64_t) ((fam * 2 + tk) * 2 + su);
+        p.cfg["dtls"] = 0; p.cfg["vers_c"] = fam == 2 ? 4 : (fam ? 2 : 1); p.cfg["vers_s"] = p.cfg["vers_c"]; p.cfg["sid_kind"] = KK_RSA2048; p.cfg["reoffer"] = 1; p.cfg["tickets"] = tk;
+        p.cfg["suite"] = fam == 2 ? (su ? TLS_CHACHA20_POLY1305_SHA256 : TLS_AES_128_GCM_SHA256) : fam ? (su ? TLS_RSA_WITH_AES_128_GCM_SHA256 : TLS_RSA_WITH_AES_128_CBC_SHA256) : (su ? TLS_RSA_WITH_AES_256_CBC_SHA : TLS_RSA_WITH_AES_128_CBC_SHA);
         p.ops.push_back(Op("send", 0, 50)); p.ops.push_back(Op("send", 1, 50));
         v.push_back(p);
     } } }
@@ -444,7 +453,31 @@ static RunResult c07_exec(const Plan &p) {
                         }
                     }
                 }
-                res.nontrivial = rewritten || (vc != vs) || p.get("fallback") != 0 || p.get("resdis") != 0;
+                // second connection (cfg "reoffer"): the client comes back with its stored session / ticket / PSK but now offers ANOTHER suite only
+                // (same PRF hash, so that a TLS 1.3 PSK stays usable): whatever the server does, the suite in force must be one the client offered
+                if (!res.violation && p.get("reoffer") && cc && sc && !rewritten) {
+                    uint32_t suite1 = w.srv->negotiated_suite();
+                    uint16_t other = 0;
+                    if (suite1 == TLS_AES_128_GCM_SHA256) { other = TLS_CHACHA20_POLY1305_SHA256; } else if (suite1 == TLS_CHACHA20_POLY1305_SHA256) { other = TLS_AES_128_GCM_SHA256; }
+                    else if (suite1 == TLS_RSA_WITH_AES_128_CBC_SHA) { other = TLS_RSA_WITH_AES_256_CBC_SHA; } else if (suite1 == TLS_RSA_WITH_AES_256_CBC_SHA) { other = TLS_RSA_WITH_AES_128_CBC_SHA; }
+                    else if (suite1 == TLS_RSA_WITH_AES_128_GCM_SHA256) { other = TLS_RSA_WITH_AES_128_CBC_SHA256; } else if (suite1 == TLS_RSA_WITH_AES_128_CBC_SHA256) { other = TLS_RSA_WITH_AES_128_GCM_SHA256; }
+                    if (other) {
+                        w.cli->app_close(); w.pump();
+                        w.filter = nullptr;
+                        w.pc.suites = { other };
+                        if (w.connect(true)) {
+                            w.handshake();
+                            bool c2 = w.cli->is_complete() && w.srv->is_complete();
+                            res.count(std::string("reoffer.") + (c2 ? (w.srv->is_resumed() ? "completed_resumed" : "completed_full") : "refused"));
+                            uint32_t s2c = w.cli->negotiated_suite(), s2s = w.srv->negotiated_suite();
+                            if (c2 && (s2c != other || s2s != other)) {
+                                res.violate("param_not_mutual", "suite_not_offered_in_this_handshake,second_connection", std::string("second connection ") + (w.srv->is_resumed() ? "resumed" : "completed") + " on suite " +
+                                            suite_name((uint16_t) s2s) + " / " + suite_name((uint16_t) s2c) + " although the client offered only " + suite_name(other) + " this time");
+                            }
+                        }
+                    }
+                }
+                res.nontrivial = rewritten || (vc != vs) || p.get("fallback") != 0 || p.get("resdis") != 0 || p.get("reoffer") != 0;
                 res.fingerprint = mix64(w.fingerprint(), (uint64_t) rw * 1000 + rwa);
             }
         }
